@@ -6,7 +6,7 @@ CONSTANTS
   Ports <- T_Ports
   Names <- T_Names
   HostAlpha <- T_HostAlpha
-  FreeHostLen = 3
+  FreeHostLen = 4
   Prefixes <- T_Prefixes
   Alphabet <- Q_Alphabet
   MaxSuffix = 5
